@@ -4,6 +4,8 @@
      astep : atomic-step model of parsec_arena_allocate_device_private / parsec_arena_get_chunk /
              parsec_arena_release_chunk (arena.c); one step = the code between two scheduling points
              (each parsec_atomic_* RMW on used/released, each LIFO operation, each operation start);
+             [astep false] is the code of the repository ([arun] = runs of it), [astep true] the code with
+             notes/findings/C27-cache-limit-race.patch applied ([arun_gen true]);
      mstep : the thread memory pools of mempool.c / mempool.h.
    A run is [fold_left step sched init]: the schedule is an arbitrary list of thread ids, the number of
    threads is the length of [progs], each thread runs an arbitrary op list; [ORel k] / [OGive k u]
@@ -98,7 +100,7 @@ Print Assumptions C27_arena_used_transient_exceeds.
    takes nothing from the cache and restores the counter *)
 Theorem C27_arena_refuses_beyond_limit : forall P fails c t th cnt,
   nth_error (a_thr c) t = Some th -> t_pc th = GAdd cnt -> a_used c + Z.pos cnt > p_mu P ->
-  let c2 := astep P fails (astep P fails c t) t in
+  let c2 := astep false P fails (astep false P fails c t) t in
   exists th2, nth_error (a_thr c2) t = Some th2 /\ t_log th2 = RNull :: t_log th /\ t_held th2 = t_held th /\
               a_allocs c2 = a_allocs c /\ a_used c2 = a_used c /\ a_lifo c2 = a_lifo c.
 Proof. exact arena_refuses_beyond_limit. Qed.
@@ -138,6 +140,16 @@ Theorem C27_cache_bound_tight : exists P progs sched, p_mr P <> INT32_MAX /\
   a_rel (arun P [] (ainit progs) sched) = p_mr P + (Z.of_nat (length progs) - 1).
 Proof. exact cache_bound_tight. Qed.
 Print Assumptions C27_cache_bound_tight.
+
+(* with the repair of notes/findings/C27-cache-limit-race.patch (fetch_inc(released) < max_released is the
+   test, undone by a fetch_dec when it fails) the cache never holds more than max_released blocks, for every
+   schedule; the counter itself may overshoot by the number of releases being undone *)
+Theorem C27_cache_bound_fixed : forall P fails progs sched, p_mr P <> INT32_MAX -> 0 <= p_mr P ->
+  let c := arun_gen true P fails (ainit progs) sched in
+  Z.of_nat (length (a_lifo c)) <= p_mr P /\
+  a_rel c <= p_mr P + Z.of_nat (length progs).
+Proof. exact cache_bound_fixed. Qed.
+Print Assumptions C27_cache_bound_fixed.
 
 (* sequentially the limit is respected: one thread ... *)
 Theorem C27_cache_bound_one_thread : forall P fails prog sched, p_mr P <> INT32_MAX -> 0 <= p_mr P ->
